@@ -8,7 +8,7 @@ from sim import Config, var, W, R, P, A, N, D, RW
 PROP = "C12"
 LEVEL = "exploration"
 RULE = ("1..4 TPDOs with generated mappings (1..8 objects of 1/2/3/4 bytes, <= 8 bytes) x (type 254/255/1..240, inhibit, event time) x "
-        "histories of value changes through CODictWr*/SDO, explicit triggers (PDO number, object), received SYNCs, ticks, NMT changes "
+        "histories of value changes through CODictWr*/SDO/a received asynchronous RPDO mapped to the same objects, explicit triggers (PDO number, object), received SYNCs, ticks, NMT changes "
         "(OP->PREOP->OP round trips, STOP, reset communication), event-time writes and COB-ID invalidate/re-validate while OPERATIONAL, leaving OPERATIONAL / invalidating while the timer event of a TPDO is served but not yet processed; the "
         "(tick, identifier, dlc, data) TPDO emissions of every step are compared with a reference model in ticks, plus a systematic sweep of "
         "(inhibit, event, trigger offset) in {0..6}^3 x 10 ticks (every relative order and coincidence of trigger, inhibit end and event expiry); non-trivial = history with >= 1 deferred (inhibited) transmission, event "
@@ -195,8 +195,19 @@ def gen_world(rng, sweep=None):
             cob |= 0x80000000
         gen.add_tpdo(cfg, num, cob, typ, inh, ev, [gen.maplink(*m) for m in maps])
         tps.append(TP(num, cob + nid, typ, inh, ev, maps))
+    # an asynchronous RPDO that writes some of the same objects: a value changed by a received PDO triggers the TPDO as well
+    rmap = []
+    if sweep is None and rng.random() < 0.6:
+        total = 0
+        cand = pool[:]
+        rng.shuffle(cand)
+        for (idx, sub, w) in cand[:rng.randint(1, 3)]:
+            if total + w <= 8:
+                rmap.append((idx, sub, 8 * w)); total += w
+        gen.add_rpdo(cfg, 0, 0x200, 255, [gen.maplink(*m) for m in rmap])
     cfg.finalize()
     units = (1, 10)
+    cfg.rmap = rmap
     return cfg, nid, objs, tps, units
 
 
@@ -267,6 +278,8 @@ def run_history(res, exe, rng, first, sweep=None):
                     op = ("trigobj", rng.choice(list(objs)))
                 elif x < 0.84:
                     op = ("sync",)
+                elif x < 0.88 and cfg.rmap:
+                    op = ("rpdo",)
                 elif x < 0.93:
                     op = ("nmt", rng.choice([1, 1, 128, 2, 130, 1]))
                 elif x < 0.95:
@@ -312,6 +325,19 @@ def run_history(res, exe, rng, first, sweep=None):
                 script.append("trigger object %04x:%d @%d" % (op[1][0], op[1][1], now))
                 m.trigger_obj(op[1], now)
                 evs = sim.cmd("trigobj %x %x" % op[1])
+            elif op[0] == "rpdo":
+                data = gen.rand_bytes(rng, 8)
+                if rng.random() < 0.3:
+                    # same values as stored: no change, no trigger
+                    data = b"".join((objs[(i_, s_)][2]).to_bytes(b_ // 8, "little") for (i_, s_, b_) in cfg.rmap).ljust(8, b"\0")
+                script.append("RPDO %s @%d" % (data.hex(), now))
+                if m.mode == OP:
+                    pos = 0
+                    for (i_, s_, b_) in cfg.rmap:
+                        m.write_obj((i_, s_), int.from_bytes(data[pos:pos + b_ // 8], "little"), now)
+                        pos += b_ // 8
+                    res.counters["rpdo_writes_in_operational"] += 1
+                evs = sim.rx(0x200 + nid, data)
             elif op[0] == "sync":
                 script.append("SYNC @%d" % now)
                 if m.mode == OP:
